@@ -51,9 +51,10 @@ Ltac fin := constructor; unfold unshut, is_reload; cbn; intros; brk; subst; cbn 
             try (fwd; brk; subst; try discriminate; try congruence; eauto).
 
 Section Step.
+  Variable stop_locked : bool.
   Variable validated : bool.
   Variable mux_ok : list str -> bool.
-  Notation Inv := (Inv mux_ok).
+  Notation Inv := (Inv stop_locked mux_ok).
 
   (* labels that touch none of the fields the invariant reads *)
   Definition same_core (s s' : state) : Prop :=
@@ -76,7 +77,7 @@ Section Step.
   Lemma same_core_refl s : same_core s s.
   Proof. repeat split. Qed.
 
-  Lemma step_RunCall s s' : Inv s -> step_core validated mux_ok s LRunCall = Some s' -> Inv s'.
+  Lemma step_RunCall s s' : Inv s -> step_core stop_locked validated mux_ok s LRunCall = Some s' -> Inv s'.
   Proof.
     intros I H. unfold step_core in H. destruct (crashed s); [discriminate|].
     destruct (rpc s) eqn:Er; try discriminate. injection H as <-.
@@ -85,7 +86,7 @@ Section Step.
     fin.
   Qed.
 
-  Lemma step_RunStart s s' : Inv s -> step_core validated mux_ok s LRunStart = Some s' -> Inv s'.
+  Lemma step_RunStart s s' : Inv s -> step_core stop_locked validated mux_ok s LRunStart = Some s' -> Inv s'.
   Proof.
     intros I H. unfold step_core in H. destruct (crashed s); [discriminate|].
     destruct (rpc s) eqn:Er; try discriminate.
@@ -94,7 +95,7 @@ Section Step.
     fin.
   Qed.
 
-  Lemma step_RunLock s s' : Inv s -> step_core validated mux_ok s LRunLock = Some s' -> Inv s'.
+  Lemma step_RunLock s s' : Inv s -> step_core stop_locked validated mux_ok s LRunLock = Some s' -> Inv s'.
   Proof.
     intros I H. unfold step_core in H. destruct (crashed s); [discriminate|].
     destruct (rpc s) eqn:Er; try discriminate. destruct (holder s) eqn:Eh; try discriminate.
@@ -105,7 +106,7 @@ Section Step.
     fin.
   Qed.
 
-  Lemma step_RunFinishBoot s s' : Inv s -> step_core validated mux_ok s LRunFinishBoot = Some s' -> Inv s'.
+  Lemma step_RunFinishBoot s s' : Inv s -> step_core stop_locked validated mux_ok s LRunFinishBoot = Some s' -> Inv s'.
   Proof.
     intros I H. unfold step_core in H. destruct (crashed s); [discriminate|].
     destruct (rpc s) eqn:Er; try discriminate.
@@ -119,7 +120,7 @@ Section Step.
     fin.
   Qed.
 
-  Lemma step_RunWake s s' : Inv s -> step_core validated mux_ok s LRunWake = Some s' -> Inv s'.
+  Lemma step_RunWake s s' : Inv s -> step_core stop_locked validated mux_ok s LRunWake = Some s' -> Inv s'.
   Proof.
     intros I H. unfold step_core in H. destruct (crashed s); [discriminate|].
     destruct (rpc s) eqn:Er; try discriminate.
@@ -127,26 +128,31 @@ Section Step.
     unfold transition. start I s. subst rp.
     destruct ho as [[|i]|].
     - destruct i_run as [[? _]|[? _]]; [reflexivity| |]; discriminate.
-    - rewrite (i_rel i eq_refl) in *. cbn. fin.
-    - destruct (fsm_allowed f FStopping) eqn:Ea; fin.
+    - rewrite (i_rel i eq_refl) in *. destruct stop_locked; cbn; fin.
+    - destruct stop_locked; [fin|]. destruct (fsm_allowed f FStopping) eqn:Ea; fin.
   Qed.
 
-  Lemma step_RunServeErr s s' : Inv s -> step_core validated mux_ok s LRunServeErr = Some s' -> Inv s'.
+  Lemma step_RunServeErr s s' : Inv s -> step_core stop_locked validated mux_ok s LRunServeErr = Some s' -> Inv s'.
   Proof.
     intros I H. unfold step_core in H. destruct (crashed s); [discriminate|].
-    destruct (rpc s); try discriminate. rewrite (i_errs _ _ I) in H. discriminate.
+    destruct (rpc s); try discriminate. rewrite (i_errs _ _ _ I) in H. discriminate.
   Qed.
 
-  Lemma step_RunLockStop s s' : Inv s -> step_core validated mux_ok s LRunLockStop = Some s' -> Inv s'.
+  Lemma step_RunLockStop s s' : Inv s -> step_core stop_locked validated mux_ok s LRunLockStop = Some s' -> Inv s'.
   Proof.
     intros I H. unfold step_core in H. destruct (crashed s); [discriminate|].
     destruct (rpc s) eqn:Er; try discriminate. destruct (holder s) eqn:Eh; try discriminate.
-    injection H as <-. start I s. subst rp ho.
+    injection H as <-. unfold transition. start I s. subst rp ho.
     assert (kp = KFree) by (now apply i_free). subst kp.
+    assert (Hnr : f <> FReloading) by (intros ->; destruct (i_reloading eq_refl); discriminate).
+    destruct stop_locked; [|fin].
+    destruct (fsm_allowed f FStopping) eqn:Ea; [fin|].
+    assert (Hnrun : f <> FRunning) by (intros ->; discriminate).
     fin.
+    all: match goal with |- ?G => idtac "GOAL:" G end.
   Qed.
 
-  Lemma step_RunRet s s' r : Inv s -> step_core validated mux_ok s (LRunRet r) = Some s' -> Inv s'.
+  Lemma step_RunRet s s' r : Inv s -> step_core stop_locked validated mux_ok s (LRunRet r) = Some s' -> Inv s'.
   Proof.
     intros I H. unfold step_core in H. destruct (crashed s); [discriminate|].
     destruct (rpc s) eqn:Er; try discriminate.
@@ -162,10 +168,10 @@ Section Step.
   Lemma step_frame s s' l :
     match l with
     | LStopCall _ | LStopRet _ | LCancel | LReloadCall _ | LReloadRet _ | LBootCrash
-    | LObsState _ | LObsDial _ _ | LObsServe _ _ => True
+    | LObsState _ | LObsDial _ _ | LObsServe _ _ | LObsCensus _ => True
     | _ => False
     end ->
-    Inv s -> step_core validated mux_ok s l = Some s' -> Inv s'.
+    Inv s -> step_core stop_locked validated mux_ok s l = Some s' -> Inv s'.
   Proof.
     intros Hl I H. unfold step_core in H. destruct (crashed s); [discriminate|].
     eapply inv_same_core; [|exact I].
@@ -182,9 +188,10 @@ Section Step.
     - destruct (_ || _); [|discriminate]. injection H as <-. apply same_core_refl.
     - destruct (net_get (net s) a) as [[|sid]|]; try discriminate.
       destruct (srv_at s sid); [|discriminate]. destruct (forallb _ _); [|discriminate]. injection H as <-. apply same_core_refl.
+    - destruct (Nat.eqb _ _); [|discriminate]. injection H as <-. apply same_core_refl.
   Qed.
 
-  Lemma step_ReloadBegin s s' i : Inv s -> step_core validated mux_ok s (LReloadBegin i) = Some s' -> Inv s'.
+  Lemma step_ReloadBegin s s' i : Inv s -> step_core stop_locked validated mux_ok s (LReloadBegin i) = Some s' -> Inv s'.
   Proof.
     intros I H. unfold step_core in H. destruct (crashed s); [discriminate|].
     destruct (mem i (rl_wait s)); [|discriminate]. destruct (holder s) eqn:Eh; [discriminate|].
